@@ -20,8 +20,9 @@ def render_marked(script):
 class Run:
     """out: run.Out; resp: {cmd_index: [response text...]} (index -1 = preamble); complete: all markers seen."""
 
-    def __init__(self, out, resp, complete):
+    def __init__(self, out, resp, complete, raw=None):
         self.out, self.resp, self.complete = out, resp, complete
+        self.raw = raw or {}   # unsplit text per command (comment lines kept)
 
     def answer(self, idx):
         """check-sat answer at command idx: 'sat'/'unsat'/'unknown'/'error'/None"""
@@ -44,6 +45,7 @@ def run_marked(script, variant="fast", timeout=10.0, pipe=False, env_extra=None,
     o = run.run_text(text, variant, timeout, pipe=pipe, env_extra=env_extra)
     import re
     resp = {}
+    raw = {}
     n = len(script["cmds"])
     seen = 0
     nxt = -1
@@ -53,6 +55,7 @@ def run_marked(script, variant="fast", timeout=10.0, pipe=False, env_extra=None,
         if m:
             idx = int(m.group(1))
             resp[idx] = run.split_responses("\n".join(cur))
+            raw[idx] = "\n".join(cur)
             cur = []
             seen += 1
             nxt = idx + 1
@@ -61,7 +64,7 @@ def run_marked(script, variant="fast", timeout=10.0, pipe=False, env_extra=None,
     rest = run.split_responses("\n".join(cur))
     if rest:
         resp[nxt] = resp.get(nxt, []) + rest
-    return Run(o, resp, seen == n + 1)
+    return Run(o, resp, seen == n + 1, raw)
 
 
 def ref_decls(script, upto=None):
